@@ -45,7 +45,9 @@ def check_doc(res, d, stmts, text, meta, reqs, expect):
         else:
             if meta.get("tricks"):
                 res.nontriv([text, layout])
-            if "err" in r and r["err"] in ("overconstrained", "keyError", "valueError"):
+            # ("load": the document is well formed by construction, so a refusal while it is being read is a refusal of a satisfiable
+            #  specification too - e.g. an `equal x x*` over an even-length region is a palindromic site, not an over-constraint)
+            if "err" in r and r["err"] in ("overconstrained", "keyError", "valueError", "load"):
                 res.violations.append({"what": "satisfiable specification rejected (%s)" % r["err"], "input": inp,
                                        "observed": r, "expected": "constraint arrays", "sig": "C15:false-error", "cmd": cmd})
         reqs.append({"op": "pil-constraints", "stmts": stmts, "layout": layout})
